@@ -18,7 +18,7 @@ func init() {
 	run.Register(&run.Check{
 		ID:    "C15",
 		Level: "exploration",
-		Rule: "cases: histories of up to 40 InsertObject / DeleteObject / SetResources calls on one PolicyEngine - empty at first and filled one by one or through the bulk setter, or created by NewPolicyEngineWithObjects from the initial objects - (pods with controller owners - several per owner - relabelled, re-ported, added, deleted; namespaces inserted, relabelled, deleted; NetworkPolicies inserted, deleted, deleted+reinserted changed; ANPs inserted in non-priority order and deleted through the inserted or an equal fresh object; the BANP inserted, deleted, replaced; deletes of never-inserted objects of every kind; ClearResources followed by the return of the namespaces and pods with only some of the policies; a SetResources call that fails half-way, judged against both readings of what a failed batch leaves behind; an AdminNetworkPolicy whose insert is rejected - priority in use or outside 0..1000 -, a valid one inserted while it may still be held, then the rejected one deleted: if the valid insert returned an error all answers must be those of a fresh engine with it or all those of one without it; case 0 is the committed witness history of finding C15-rejected-anp-insert), with a fixed query set (pod pairs x boundary ports x TCP/UDP) asked after every step; " +
+		Rule: "cases: histories of up to 40 InsertObject / DeleteObject / SetResources calls on one PolicyEngine - empty at first and filled one by one or through the bulk setter, or created by NewPolicyEngineWithObjects from the initial objects - (pods with controller owners - several per owner - and workload objects (Deployment, StatefulSet) relabelled, re-ported, added, deleted, re-inserted with another replica count; namespaces inserted, relabelled, deleted; NetworkPolicies inserted, deleted, deleted+reinserted changed; ANPs inserted in non-priority order and deleted through the inserted or an equal fresh object; the BANP inserted, deleted, replaced; deletes of never-inserted objects of every kind; ClearResources followed by the return of the namespaces and pods with only some of the policies; a SetResources call that fails half-way, judged against both readings of what a failed batch leaves behind; an AdminNetworkPolicy whose insert is rejected - priority in use or outside 0..1000 -, a valid one inserted while it may still be held, then the rejected one deleted: if the valid insert returned an error all answers must be those of a fresh engine with it or all those of one without it; case 0 is the committed witness history of finding C15-rejected-anp-insert), with a fixed query set (pod pairs x boundary ports x TCP/UDP) asked after every step; " +
 			"oracle: the history engine's answer must equal the answer of a fresh engine built with NewPolicyEngineWithObjects from the objects current at that moment (the reference model is consulted too: where the comparison engine and the model disagree, an engine built for that single question arbitrates - the comparison engine answers many questions and may be misled by its own memory -, and if that one disagrees with the model too the query is not judged here); the engine's own cache-hit counter, read around every query, says which answers came out of the cache; " +
 			"non-trivial = at least one answer changed over the history (how many answers came out of the cache after an update is reported, not demanded: an engine that remembers less is just as right); distinct = hash of the operation sequence",
 		Assumptions:       []string{"current objects = the objects of the successful calls so far (model state kept by the harness)", "a NetworkPolicy is updated by delete + insert (InsertObject rejects an existing name)"},
@@ -29,7 +29,7 @@ func init() {
 		MinEffectiveShare: 0.5,
 		RequiredEvents: map[string]int64{"steps": 5000, "queries": 200000, "answers_changed_by_a_step": 1000, "deletes_of_absent_objects": 300,
 			"op_nsRelabel": 100, "op_nsDelete": 50, "op_anpInsert": 100, "op_anpDelete": 100, "op_banpInsert": 50, "op_banpDelete": 50, "op_npInsert": 100, "op_npDelete": 100,
-			"op_podRelabel": 100, "op_podDelete": 50, "op_podPorts": 50, "op_podRecreate": 50, "op_SetResources": 100, "op_clearRepopulate": 50, "histories_starting_from_the_constructor": 100, "op_failingBulkSet": 50, "op_podPending": 50, "op_anpRejectedInsert": 100},
+			"op_podRelabel": 100, "op_podDelete": 50, "op_podPorts": 50, "op_podRecreate": 50, "op_SetResources": 100, "op_clearRepopulate": 50, "histories_starting_from_the_constructor": 100, "op_failingBulkSet": 50, "op_podPending": 50, "op_anpRejectedInsert": 100, "op_wlRescale": 100},
 	})
 }
 
@@ -64,13 +64,13 @@ func (s *c15State) call(what string, res observe.CallResult, mustSucceed bool) b
 
 func (s *c15State) insertWorkload(wl *world.Workload) {
 	for _, d := range world.WorkloadDocs(wl) {
-		s.call("insert Pod "+d.Ns+"/"+d.Name, s.eng.Insert(s.obj(d)), true)
+		s.call("insert "+d.Kind+" "+d.Ns+"/"+d.Name, s.eng.Insert(s.obj(d)), true)
 	}
 }
 
 func (s *c15State) deleteWorkload(wl *world.Workload) {
 	for _, d := range world.WorkloadDocs(wl) {
-		s.call("delete Pod "+d.Ns+"/"+d.Name, s.eng.Delete(s.obj(d)), true)
+		s.call("delete "+d.Kind+" "+d.Ns+"/"+d.Name, s.eng.Delete(s.obj(d)), true)
 	}
 }
 
@@ -145,7 +145,7 @@ func runC15(c *run.Ctx) {
 	cfg.NamedEgressIP = 0
 	cfg.NoIPBlocks = true
 	cfg.MinWorkloads, cfg.MaxWorkloads = 3, 4
-	cfg.Kinds = []string{world.KOwnedPods, world.KOwnedPods, world.KPod}
+	cfg.Kinds = []string{world.KOwnedPods, world.KOwnedPods, world.KPod, world.KDeployment, world.KStatefulSet}
 	cfg.MinNetPols, cfg.MaxNetPols = 0, 3
 	w := world.GenBase(g, cfg)
 	if g.P(0.3) {
@@ -353,7 +353,7 @@ func runC15(c *run.Ctx) {
 	for step := 0; step < steps && len(r.Violations) == 0; step++ {
 		r.Ev("steps", 1)
 		op := rng.Pick(g, []string{"podPending", "podRelabel", "podDelete", "podAdd", "podPorts", "podRecreate", "nsRelabel", "nsRelabel", "nsDelete", "npInsert", "npDelete", "npReplace",
-			"anpInsert", "anpInsert", "anpDelete", "banpInsert", "banpDelete", "banpReplace", "deleteAbsent", "deleteAbsent", "requery", "bulkSet", "clearRepopulate", "failingBulkSet", "anpRejectedInsert", "anpRejectedInsert"})
+			"anpInsert", "anpInsert", "anpDelete", "banpInsert", "banpDelete", "banpReplace", "deleteAbsent", "deleteAbsent", "requery", "bulkSet", "clearRepopulate", "failingBulkSet", "anpRejectedInsert", "anpRejectedInsert", "wlRescale", "wlRescale"})
 		done := false
 		switch op {
 		case "podRelabel":
@@ -403,6 +403,36 @@ func runC15(c *run.Ctx) {
 			if len(st.w.Workloads) > 0 {
 				wl := &st.w.Workloads[g.Intn(len(st.w.Workloads))]
 				wl.Ports = world.GenCPorts(g, cfg)
+				st.insertWorkload(wl)
+				done = true
+			}
+		case "wlRescale":
+			// a workload OBJECT (Deployment, StatefulSet) is inserted again with another replica count - some of its pods are replaced, some
+			// are new - and, most of the time, other container ports behind the same names; its labels stay as they are
+			cands := []int{}
+			for i := range st.w.Workloads {
+				if k := st.w.Workloads[i].Kind; k != world.KPod && k != world.KOwnedPods {
+					cands = append(cands, i)
+				}
+			}
+			if len(cands) > 0 {
+				wl := &st.w.Workloads[rng.Pick(g, cands)]
+				cur := 1
+				if wl.Replicas != nil {
+					cur = *wl.Replicas
+				}
+				n := rng.Pick(g, []int{1, 2, 3})
+				if n <= cur && g.P(0.7) {
+					n = cur + 1
+				}
+				if n < cur {
+					// pods beyond the new count go away first (the engine is told so, as a watch would tell it)
+					st.deleteWorkload(wl)
+				}
+				wl.Replicas = &n
+				if g.P(0.7) {
+					wl.Ports = world.GenCPorts(g, cfg)
+				}
 				st.insertWorkload(wl)
 				done = true
 			}
@@ -584,8 +614,11 @@ func runC15(c *run.Ctx) {
 			np := world.GenNetPol(g, st.w, cfg, rng.Pick(g, world.NsNames), fmt.Sprintf("np%d", nextID))
 			st.w.NetPols = append(st.w.NetPols, np)
 			objs = append(objs, st.obj(world.NetPolDoc(&np)))
-			res, _ := st.eng.SetResources(objs)
+			res, rest := st.eng.SetResources(objs)
 			st.call("SetResources namespace+pods+policy", res, true)
+			for _, o := range rest { // SetResources takes namespaces, pods and NetworkPolicies; a workload object goes in on its own
+				st.call("insert workload object (relabelled)", st.eng.Insert(o), true)
+			}
 			r.Ev("op_SetResources", 1)
 			done = true
 		case "clearRepopulate": // ClearResources, then the same namespaces and pods come back - but only some of the policies
